@@ -60,6 +60,12 @@ func judge(w window, lazy bool, spec msgSpec, optWant []uint32, r result) verdic
 	}
 	msgExpLo, msgExpHi := w.StLo+w.L*sec, w.StHi+w.L*sec
 	cacheExpLo, cacheExpHi := w.StLo+w.C*sec, w.StHi+w.C*sec
+	if lazy && w.LoadLo == 0 && w.L > w.C {
+		// stored through Exec with lazy cache on: the statement does not make an entry vanish
+		// lazy_cache_ttl seconds after the store while its records are still valid; it may be
+		// kept (and served fresh) until its smallest TTL has run out
+		cacheExpHi = w.StHi + w.L*sec
+	}
 
 	loadPossible := loadLo <= cacheExpHi                // Store() is a no-op once the cache expiry has passed
 	loadSure := loadHi+slackNs <= cacheExpLo            //
@@ -101,7 +107,11 @@ func judge(w window, lazy bool, spec msgSpec, optWant []uint32, r result) verdic
 		return v
 	}
 	if optWant != nil {
-		if !sameWords(optWant, r.Obs.OPTs) {
+		if len(r.Obs.OPTs) == 0 && len(optWant) > 0 {
+			// the entry was stored (loaded) without its OPT record: "cached answers never
+			// contain one" (C15) - nothing left that a TTL rewrite could touch
+			rep.Count("hits_on_entries_whose_opt_record_was_dropped_by_the_cache(allowed)", 1)
+		} else if !sameWords(optWant, r.Obs.OPTs) {
 			v.Viol = "opt-ttl-touched"
 			v.Detail = fmt.Sprintf("OPT ext-rcode/version/flags words stored %#x, served %#x", optWant, r.Obs.OPTs)
 			return v
